@@ -3,7 +3,9 @@
 package c10
 
 import (
+	"crypto/tls"
 	"fmt"
+	"io"
 	"net"
 	"runtime/debug"
 	"strings"
@@ -258,5 +260,102 @@ func runAcceptFlood(c *mon.Case, sp spec) {
 		kept += len(cs)
 	}
 	c.Count("flood_connections_closed_by_close", kept)
+	c.Nontrivial()
+}
+
+// runWriterStalled: a peer that completed the handshake and then reads nothing; the socket has sent
+// so much that its connection's writer is stalled inside the transport (kernel buffers full).
+// Close must interrupt that write: it returns, and with the peer still connected and still not
+// reading nothing of the socket remains (census) — closing the connection is the only thing that
+// can end such a write.
+func runWriterStalled(c *mon.Case, sp spec) {
+	tr := sp.Tran
+	ctx := "writerstalled/" + tr
+	oldGC := debug.SetGCPercent(-1)
+	defer debug.SetGCPercent(oldGC)
+	s := hx.MustSock(c, "push")
+	l, err := s.NewListener(hx.ListenAddr(tr), lopts(tr))
+	if err == nil {
+		err = l.Listen()
+	}
+	if err != nil {
+		c.Inconclusive("setup %s: %v", ctx, err)
+		return
+	}
+	w := hx.WatchPipes(s)
+	a := l.Address()
+	host := a[strings.Index(a, "://")+3:]
+	var cn net.Conn
+	dk := mon.Go("raw-dial", func() (interface{}, error) {
+		var e error
+		switch tr {
+		case "tcp":
+			cn, e = net.Dial("tcp", host)
+		case "tls+tcp":
+			_, cc := hx.TLSConfigs()
+			cn, e = tls.Dial("tcp", host, cc)
+		default:
+			cn, e = net.Dial("unix", host)
+		}
+		if e != nil {
+			return nil, e
+		}
+		cn.Write([]byte{0, 'S', 'P', 0, 0, 0x51, 0, 0}) // a PULL peer
+		hb := make([]byte, 8)
+		_, e = io.ReadFull(cn, hb)
+		return nil, e
+	})
+	if !c.AwaitOrViolate("harness:raw-dial-stuck", "raw peer connecting", dk.Done, mon.AwaitOpts{}) {
+		return
+	}
+	if _, e, _ := dk.Result(); e != nil {
+		c.Inconclusive("setup %s: raw peer: %v", ctx, e)
+		return
+	}
+	defer cn.Close() // (after the census below)
+	if !hx.WaitAttached(c, w, 1, "raw peer") {
+		return
+	}
+	s.SetOption(mangos.OptionSendDeadline, 20*time.Millisecond)
+	big := make([]byte, 512<<10)
+	timeouts := 0
+	sk := mon.Go("fill", func() (interface{}, error) {
+		for i := 0; i < 400 && timeouts < 2; i++ {
+			switch err := s.Send(big); err {
+			case nil:
+				timeouts = 0
+			case mangos.ErrSendTimeout:
+				timeouts++
+			default:
+				return nil, err
+			}
+		}
+		return nil, nil
+	})
+	if !c.AwaitOrViolate("harness:fill-stuck", "filling the connection towards a peer that reads nothing", sk.Done, mon.AwaitOpts{MaxTimer: 20 * time.Millisecond}) {
+		return
+	}
+	if _, e, _ := sk.Result(); e != nil || timeouts < 2 {
+		c.Inconclusive("setup %s: the writer did not stall (err %v, consecutive timeouts %d)", ctx, e, timeouts)
+		return
+	}
+	base := mon.GoroutineBaseline{} // everything the library still runs after Close belongs to this socket
+	fds := mon.SocketFDs()
+	_ = fds
+	ck := mon.Go("Close", func() (interface{}, error) { return nil, s.Close() })
+	if !c.AwaitOrViolate("close-blocks:"+ctx, ctx+": Close while the connection's writer is stalled", ck.Done, mon.AwaitOpts{}) {
+		return
+	}
+	var left []mon.G
+	settled := func() bool { left = base.NewMangos(); return len(left) == 0 }
+	if r := mon.Await(settled, mon.AwaitOpts{}); r.V != mon.Done {
+		if r.V == mon.Stuck {
+			c.Violate("leak:goroutine:"+ctx+":"+leakTop(left), "after Close returned, with the peer still connected and not reading, %d library goroutine(s) of the closed socket remain, parked and unchanged:\n%s", len(left), mon.RenderGs(left))
+		} else {
+			c.Inconclusive("%s: library goroutines did not settle: %s", ctx, mon.RenderGs(left))
+		}
+		return
+	}
+	c.Count("stalled_writers_interrupted_by_close", 1)
 	c.Nontrivial()
 }
